@@ -165,3 +165,12 @@ Theorem monitor_stream_on_model : forall cfg t0 evs,
   panicked (snd (run (init cfg t0) evs)) \/ trace_sub [3%nat] cfg t0 (model_trace cfg t0 evs) = true.
 Proof. exact monitor_stream_on_model. Qed.
 Print Assumptions monitor_stream_on_model.
+
+(* position 5 of p_components (e_cancel): unless the event is an operator's kill, an operation that was registered
+   before the event and still is afterwards does not belong to a task the event completed with the scheduler's own
+   CANCELLED ("no waiting clients"): that cause completes a task only together with the removal of its last operation *)
+Theorem monitor_cancel_on_model : forall cfg t0 evs,
+  selectors_in_range (init cfg t0) evs -> fresh_calls [] evs -> bg_scripts_ok evs -> causes_ok evs ->
+  panicked (snd (run (init cfg t0) evs)) \/ trace_sub [5%nat] cfg t0 (model_trace cfg t0 evs) = true.
+Proof. exact monitor_cancel_on_model. Qed.
+Print Assumptions monitor_cancel_on_model.
